@@ -7,6 +7,7 @@ import (
 
 	"github.com/openkruise/rollouts/api/v1beta1"
 	"github.com/openkruise/rollouts/pkg/verifrt"
+	corev1 "k8s.io/api/core/v1"
 	"k8s.io/apimachinery/pkg/util/intstr"
 	gatewayv1beta1 "sigs.k8s.io/gateway-api/apis/v1beta1"
 )
@@ -677,4 +678,124 @@ func VerifC20_BatchReleaseAlphaRoundTrip() {
 		verifrt.Assert(*a.NoNeedUpdateReplicas == *b.NoNeedUpdateReplicas, "C20.br.rt.status.noNeed.value")
 	}
 	verifrt.Cover("roundtrip-done")
+}
+
+// VerifC20_BatchReleaseBetaRoundTrip: a stored v1beta1 BatchRelease read and written back through the v1alpha1 view
+// (beta -> alpha -> beta) keeps its meaning, whatever its metadata looks like: annotations absent, empty, holding
+// other keys, or holding a stale rolling-style annotation (the style travels in that annotation on the alpha side).
+func VerifC20_BatchReleaseBetaRoundTrip() {
+	src := &v1beta1.BatchRelease{}
+	src.Name = verifrt.String("name")
+	switch verifrt.IntRange("annotations", 0, 3) {
+	case 1:
+		src.Annotations = map[string]string{}
+	case 2:
+		src.Annotations = map[string]string{"team": verifrt.String("anno.v")}
+	case 3:
+		src.Annotations = map[string]string{RolloutStyleAnnotation: c20Styles[verifrt.IntRange("staleStyle", 0, len(c20Styles)-1)]}
+	}
+	src.Spec.WorkloadRef = v1beta1.ObjectRef{APIVersion: verifrt.String("wr.apiVersion"), Kind: verifrt.String("wr.kind"), Name: verifrt.String("wr.name")}
+	p := &src.Spec.ReleasePlan
+	p.RollingStyle = []v1beta1.RollingStyleType{"", v1beta1.PartitionRollingStyle, v1beta1.CanaryRollingStyle, v1beta1.BlueGreenRollingStyle}[verifrt.IntRange("rollingStyle", 0, 3)]
+	nb := verifrt.IntRange("nBatches", 0, 2)
+	for i := 0; i < nb; i++ {
+		v := c20IntOrStr("batch")
+		if v == nil {
+			p.Batches = append(p.Batches, v1beta1.ReleaseBatch{})
+		} else {
+			p.Batches = append(p.Batches, v1beta1.ReleaseBatch{CanaryReplicas: *v})
+		}
+	}
+	if verifrt.Bool("hasPartition") {
+		bp := verifrt.Int32("partition")
+		p.BatchPartition = &bp
+	}
+	p.RolloutID = verifrt.String("rolloutID")
+	p.FailureThreshold = c20IntOrStr("failureThreshold")
+	p.FinalizingPolicy = v1beta1.FinalizingPolicyType(verifrt.String("finalizingPolicy"))
+	p.EnableExtraWorkloadForCanary = verifrt.Bool("enableExtra")
+	if verifrt.Bool("hasPatchMeta") {
+		p.PatchPodTemplateMetadata = &v1beta1.PatchPodTemplateMetadata{Labels: map[string]string{verifrt.String("pm.lk"): verifrt.String("pm.lv")}, Annotations: map[string]string{verifrt.String("pm.ak"): verifrt.String("pm.av")}}
+	}
+	st := &src.Status
+	st.StableRevision, st.UpdateRevision = verifrt.String("st.stable"), verifrt.String("st.update")
+	st.ObservedGeneration, st.ObservedRolloutID = verifrt.Int64("st.og"), verifrt.String("st.rid")
+	st.ObservedWorkloadReplicas, st.ObservedReleasePlanHash = verifrt.Int32("st.owr"), verifrt.String("st.hash")
+	st.Phase = v1beta1.RolloutPhase(verifrt.String("st.phase"))
+	if verifrt.Bool("st.hasCollision") {
+		c := verifrt.Int32("st.collision")
+		st.CollisionCount = &c
+	}
+	if verifrt.Bool("st.hasCondition") {
+		st.Conditions = []v1beta1.RolloutCondition{{Type: v1beta1.RolloutConditionType(verifrt.String("cond.type")), Status: corev1.ConditionStatus(verifrt.String("cond.status")), Reason: verifrt.String("cond.reason"), Message: verifrt.String("cond.message")}}
+	}
+	st.CanaryStatus.CurrentBatchState = v1beta1.BatchReleaseBatchStateType(verifrt.String("st.batchState"))
+	st.CanaryStatus.CurrentBatch = verifrt.Int32("st.currentBatch")
+	st.CanaryStatus.UpdatedReplicas, st.CanaryStatus.UpdatedReadyReplicas = verifrt.Int32("st.updated"), verifrt.Int32("st.updatedReady")
+	if verifrt.Bool("st.hasNoNeed") {
+		n := verifrt.Int32("st.noNeed")
+		st.CanaryStatus.NoNeedUpdateReplicas = &n
+	}
+
+	mid := &BatchRelease{}
+	err := mid.ConvertFrom(src.DeepCopy())
+	verifrt.Assert(err == nil, "C20.br.brt.convertFrom.noerror")
+	back := &v1beta1.BatchRelease{}
+	err = mid.ConvertTo(back)
+	verifrt.Assert(err == nil, "C20.br.brt.convertTo.noerror")
+
+	verifrt.Assert(back.Name == src.Name, "C20.br.brt.meta")
+	verifrt.Assert(back.Spec.WorkloadRef == src.Spec.WorkloadRef, "C20.br.brt.workloadRef")
+	sp, bp := src.Spec.ReleasePlan, back.Spec.ReleasePlan
+	verifrt.Assert(bp.RollingStyle == sp.RollingStyle, "C20.br.brt.rollingStyle")
+	for k, v := range src.Annotations {
+		if k != RolloutStyleAnnotation {
+			verifrt.Assert(back.Annotations[k] == v, "C20.br.brt.userAnnotationsKept")
+		}
+	}
+	verifrt.Assert(len(sp.Batches) == len(bp.Batches), "C20.br.brt.batches.len")
+	if len(sp.Batches) == len(bp.Batches) {
+		for i := range sp.Batches {
+			verifrt.Assert(sp.Batches[i].CanaryReplicas == bp.Batches[i].CanaryReplicas, "C20.br.brt.batches.value")
+		}
+	}
+	verifrt.Assert((sp.BatchPartition == nil) == (bp.BatchPartition == nil), "C20.br.brt.partition.presence")
+	if sp.BatchPartition != nil && bp.BatchPartition != nil {
+		verifrt.Assert(*sp.BatchPartition == *bp.BatchPartition, "C20.br.brt.partition.value")
+	}
+	verifrt.Assert(sp.RolloutID == bp.RolloutID && sp.FinalizingPolicy == bp.FinalizingPolicy && sp.EnableExtraWorkloadForCanary == bp.EnableExtraWorkloadForCanary, "C20.br.brt.plan.scalars")
+	verifrt.Assert((sp.FailureThreshold == nil) == (bp.FailureThreshold == nil), "C20.br.brt.failureThreshold.presence")
+	if sp.FailureThreshold != nil && bp.FailureThreshold != nil {
+		verifrt.Assert(*sp.FailureThreshold == *bp.FailureThreshold, "C20.br.brt.failureThreshold.value")
+	}
+	verifrt.Assert((sp.PatchPodTemplateMetadata == nil) == (bp.PatchPodTemplateMetadata == nil), "C20.br.brt.patchMeta.presence")
+	if sp.PatchPodTemplateMetadata != nil && bp.PatchPodTemplateMetadata != nil {
+		for k, v := range sp.PatchPodTemplateMetadata.Labels {
+			verifrt.Assert(bp.PatchPodTemplateMetadata.Labels[k] == v, "C20.br.brt.patchMeta.label")
+		}
+		for k, v := range sp.PatchPodTemplateMetadata.Annotations {
+			verifrt.Assert(bp.PatchPodTemplateMetadata.Annotations[k] == v, "C20.br.brt.patchMeta.annotation")
+		}
+		verifrt.Assert(len(bp.PatchPodTemplateMetadata.Labels) == len(sp.PatchPodTemplateMetadata.Labels) && len(bp.PatchPodTemplateMetadata.Annotations) == len(sp.PatchPodTemplateMetadata.Annotations), "C20.br.brt.patchMeta.noextra")
+	}
+	ss, bs := src.Status, back.Status
+	verifrt.Assert(ss.StableRevision == bs.StableRevision && ss.UpdateRevision == bs.UpdateRevision && ss.ObservedGeneration == bs.ObservedGeneration &&
+		ss.ObservedRolloutID == bs.ObservedRolloutID && ss.ObservedWorkloadReplicas == bs.ObservedWorkloadReplicas &&
+		ss.ObservedReleasePlanHash == bs.ObservedReleasePlanHash && ss.Phase == bs.Phase, "C20.br.brt.status.top")
+	verifrt.Assert((ss.CollisionCount == nil) == (bs.CollisionCount == nil), "C20.br.brt.status.collision.presence")
+	if ss.CollisionCount != nil && bs.CollisionCount != nil {
+		verifrt.Assert(*ss.CollisionCount == *bs.CollisionCount, "C20.br.brt.status.collision.value")
+	}
+	verifrt.Assert(len(ss.Conditions) == len(bs.Conditions), "C20.br.brt.status.conditions.len")
+	if len(ss.Conditions) == 1 && len(bs.Conditions) == 1 {
+		a, b := ss.Conditions[0], bs.Conditions[0]
+		verifrt.Assert(a.Type == b.Type && a.Status == b.Status && a.Reason == b.Reason && a.Message == b.Message, "C20.br.brt.status.conditions.value")
+	}
+	a, b := ss.CanaryStatus, bs.CanaryStatus
+	verifrt.Assert(a.CurrentBatchState == b.CurrentBatchState && a.CurrentBatch == b.CurrentBatch && a.UpdatedReplicas == b.UpdatedReplicas && a.UpdatedReadyReplicas == b.UpdatedReadyReplicas, "C20.br.brt.status.cursor")
+	verifrt.Assert((a.NoNeedUpdateReplicas == nil) == (b.NoNeedUpdateReplicas == nil), "C20.br.brt.status.noNeed.presence")
+	if a.NoNeedUpdateReplicas != nil && b.NoNeedUpdateReplicas != nil {
+		verifrt.Assert(*a.NoNeedUpdateReplicas == *b.NoNeedUpdateReplicas, "C20.br.brt.status.noNeed.value")
+	}
+	verifrt.Cover("br-beta-roundtrip-done")
 }
